@@ -118,6 +118,10 @@ class Position(NamedTuple):
                 break
 
         if target_line_index == -1:
+            # At the end of the text.
+            if lines and len(lines[-1].splitlines()[0]) == len(lines[-1]):
+                # The last line has no line break, we are still on it.
+                return len(lines), len(lines[-1]) + 1
             return len(lines) + 1, 1
 
         # 1-based
